@@ -209,7 +209,9 @@ struct Explorer {
             return;
         }
         Index &idx = *idxp;
-        if (idx.segments_count() >= 2) run.add(cn.multiseg);
+        bool can_count = true;   // CompressedPGMIndex::segments_count() needs a stored level (checked under C17)
+        if constexpr (is_compressed<Index>::value) can_count = !idx.levels.empty();
+        if (can_count && idx.segments_count() >= 2) run.add(cn.multiseg);
         if (idx.height() >= 3) run.add(cn.multilevel);
         if (prop == P_C07) check_level_sizes(idx, data_desc, verif::chunks);
         if (prop == P_C08 || prop == P_C09 || prop == P_C10) check_internal_build(idx, data, data_desc);
@@ -256,7 +258,7 @@ struct Explorer {
         mc::for_each_multiset(int(pal.size()), len, first, [&](const std::vector<int> &idx) {
             for (int i = 0; i < len; ++i) data[i] = pal[idx[i]];
             std::string desc = "data=" + mc::keys_str(data);
-            if (!sampled && len >= 4 && idx[len - 1] != idx[0]) { run.sample(case_of(desc, "*all " + std::to_string(queries.size()) + " alphabet queries*")); sampled = true; }
+            if (!sampled && len >= 4 && first == (palette_id * 3 + len) % 10 && idx[len - 1] != idx[0] && idx[1] != idx[0]) { run.sample(case_of(desc, "*all " + std::to_string(queries.size()) + " alphabet queries*")); sampled = true; }
             check_array(data, queries, desc, false);
             return !run.deadline_passed();
         });
